@@ -34,6 +34,8 @@ pub struct BackendCtl {
     pub parked: Mutex<HashMap<u64, TcpStream>>,
     pub max_live_parked: AtomicUsize,
     pub parked_total: AtomicU64,
+    /// ids of the kept-alive backend connections the backend closed while they were idle
+    pub idle_closed: Mutex<HashSet<u64>>,
 }
 
 /// is the peer of this socket still there? (non-blocking peek: 0 = orderly close, error = reset)
@@ -277,6 +279,20 @@ fn respond(ctl: &BackendCtl, s: &mut TcpStream, t: &Target, epoch: u64, start: I
                     Err(_) => return false,
                 }
             }
+        }
+        "idle_close" => {
+            // answer (keep-alive), then close the idle connection ourselves after a pause
+            let mut out = head_cl(len, "");
+            out.extend(body(len));
+            if s.write_all(&out).is_err() {
+                return false;
+            }
+            sleep_ticks(ctl, epoch, start, t.num("ms", 10));
+            if t.num("rst", 0) == 1 {
+                linger0(s);
+            }
+            ctl.idle_closed.lock().unwrap().insert(t.num("id", 0));
+            false
         }
         "park" => {
             let id = t.num("id", 0);
